@@ -105,7 +105,7 @@ let p_parse_script (t : string) : p_act list =
 let p_parse_desc (t : string) : p_dcfg =
   match String.split_on_char ':' t with
   | [h; rk; rs; ws; cs] ->
-    { pc_kind = (if h.[0] = 's' then PSock else PPipe); pc_conn = (h.[1] = 'c'); pc_doc = (h.[2] = '1');
+    { pc_kind = (if h.[0] = 's' then PSock else if h.[0] = 'f' then PRef else PPipe); pc_conn = (h.[1] = 'c'); pc_doc = (h.[2] = '1');
       pc_rk = nat_of_int (ios rk); pc_rs = p_parse_script rs; pc_ws = p_parse_script ws;
       pc_cs = p_parse_script cs }
   | _ -> failwith "bad desc"
@@ -193,6 +193,21 @@ let p_handle (p : string) : string =
 
 (* SelectServer-level registration: "S op;..."; x / y<us> = one idle RunOnce with poll interval 0 / us:
    Model.poll_once (timers, sleep on the clock - truncated to ms on epoll -, fresh clock read, timers) *)
+let z_of_n (x : n) : z = match x with N0 -> Z0 | Npos p -> Zpos p
+let n_of_z (x : z) : n = match x with Zpos p -> Npos p | _ -> N0
+(* interval expressions: u<us> | p<sec>.<usec> | M<ms> | *<k>(<e>) | +(<e>)(<e>) -> TimeVal.iexp *)
+let rec s_parse_iexp (t : string) (i : int ref) : iexp =
+  let digits () = let j = ref !i in
+    while !j < String.length t && t.[!j] >= '0' && t.[!j] <= '9' do incr j done;
+    let v = String.sub t !i (!j - !i) in i := !j; v in
+  let k = t.[!i] in incr i;
+  match k with
+  | 'u' -> IUs (z_of_n (n_of_string (digits ())))
+  | 'M' -> IMs (z_of_n (n_of_string (digits ())))
+  | 'p' -> let a = digits () in incr i; let b = digits () in
+    IPair (z_of_n (n_of_string a), z_of_n (n_of_string b))
+  | '*' -> let f = digits () in incr i; let a = s_parse_iexp t i in incr i; IMul (a, z_of_n (n_of_string f))
+  | _ -> incr i; let a = s_parse_iexp t i in incr i; incr i; let b = s_parse_iexp t i in incr i; IAdd (a, b)
 let s_run (epoll : bool) (ops : string list) : string * bool * int =
   let st = ref init in
   let trs = ref [] in
@@ -218,6 +233,13 @@ let s_run (epoll : bool) (ops : string list) : string * bool * int =
                Hashtbl.replace labels (int_of_n !st.nser) (fresh ());
                st := do_reg t_alloc !st (rep = "1") iv N0 done
            | _ -> failwith "bad reg")
+       | 'e' ->
+         let comma = String.index rest ',' in
+         let rep = String.sub rest 0 comma = "1" in
+         let ex = String.sub rest (comma + 1) (String.length rest - comma - 1) in
+         let iv = n_of_z (tv_us (ieval (s_parse_iexp ex (ref 0)))) in
+         Hashtbl.replace labels (int_of_n !st.nser) (fresh ());
+         st := do_reg t_alloc !st rep iv N0
        | 'L' | 'D' -> (match String.split_on_char ',' rest with
            | [rep; v] ->
              let r = (((rep = "1"), n_of_string v), N0) in
